@@ -302,7 +302,7 @@ int disasm_dspic(
         case OP_LIT8_WND:
           lit = (opcode >> 4) & 0xff;
           w = opcode & 0xf;
-          snprintf(instruction, length, "%s #0x%02x, w%d", table_dspic[n].name, lit, w);
+          snprintf(instruction, length, "%s.b #0x%02x, w%d", table_dspic[n].name, lit, w);
           return 4;
         case OP_LNK_LIT14:
           lit = opcode & 0x3fff;
